@@ -23,7 +23,10 @@ Fresh(run) == [
   speaks    |-> {},             \* peers currently advertising the protocol
   probeSpk  |-> {},             \* peers whose in-flight probe was sent while they advertised the protocol
   pings     |-> {},             \* members with a liveness ping (probe sent while a member) in flight
-  mustGo    |-> {},             \* members that have to be gone at the next quiescent point
+  mustGo    |-> {},
+  cutShort  |-> {},             \* members whose dial / request was cut by a context since the last quiescent point
+  failedNow |-> {},             \* peers with a failure delivered since the last quiescent point
+  admitted  |-> FALSE,          \* (unused)             \* members that have to be gone at the next quiescent point
   lkLive    |-> FALSE,          \* a user lookup is in its search phase and not cancelled
   refreshOpen |-> {},           \* refresh requests not answered yet
   closed    |-> FALSE,
@@ -74,13 +77,24 @@ Deliver ==
          lkFail == isLk /\ Ev.out # "ok" /\ s.lkLive /\ Ev.cls # "refresh"
          pingFail == isProbe /\ ~ProbeOK(Ev) /\ p \in s.member /\ p \in s.pings
      IN Step([s EXCEPT
+          !.failedNow = IF Ev.out # "ok" \/ (isProbe /\ ~ProbeOK(Ev)) THEN @ \cup {p} ELSE @,
           !.okLookup = IF okQ THEN @ \cup {p} ELSE @,
           !.okProbe = IF okP THEN @ \cup {p} ELSE @,
           !.mustGo = IF (lkFail \/ pingFail) /\ p \in s.member /\ ~s.closed THEN @ \cup {p} ELSE @])
 
 LTerm == Is("LTerm") /\ Step([s EXCEPT !.lkLive = FALSE])
 LookupEnd == Is("LookupEnd") /\ Step([s EXCEPT !.lkLive = FALSE])
-Abort == Is("Abort") /\ Step(s)
+\* a dial / request that ends because the operation's own timeout expired is a failure of
+\* the peer (a timed-out liveness ping of a member obliges eviction); one that ends because
+\* the caller or the lookup itself cancelled it is not
+Abort ==
+  /\ Is("Abort")
+  /\ IF Ev.why = "deadline"
+     THEN Step([s EXCEPT
+            !.failedNow = @ \cup {Ev.p},
+            !.mustGo = IF Ev.kind = "req" /\ Ev.cls = "probe" /\ Ev.p \in s.member /\ Ev.p \in s.pings /\ ~s.closed
+                       THEN @ \cup {Ev.p} ELSE @])
+     ELSE Step([s EXCEPT !.cutShort = IF Ev.p \in s.member THEN @ \cup {Ev.p} ELSE @])
 
 RefreshAns ==
   /\ Is("RefreshAns")
@@ -94,12 +108,20 @@ Quiesce ==
      IN Step([s EXCEPT
           !.member = rt,
           !.mustGo = {},
+          !.cutShort = {},
+          !.failedNow = {},
           \* a dial during a refresh cannot be attributed to a lookup phase; lookups of
           \* the refresh are not judged (mustGo only holds user-lookup and ping failures)
           !.viol = @
             \cup Flag(\A p \in new : p \in s.okLookup \/ p \in s.okProbe, "C12", "a_member_never_answered")
             \cup Flag(0 \notin rt, "C12", "b_self_is_member")
-            \cup Flag(s.mustGo \cap rt = {}, "C12", "c_failed_member_not_removed")])
+            \cup Flag(s.mustGo \cap rt = {}, "C12", "c_failed_member_not_removed")
+            \* a dial / request cut by cancellation or by the lookup's own termination is not
+            \* a failure of the peer: it must not cost the member its place (the table did not
+            \* admit anybody in this interval, so it is not a capacity replacement either)
+            \cup Flag(s.closed \/ new # {} \/
+                      ((s.cutShort \ s.failedNow) \ s.mustGo) \subseteq rt,
+                      "C12", "c_member_evicted_by_cancelled_request")])
 
 Closed ==
   /\ Is("Closed")
